@@ -288,3 +288,22 @@ void run_case(ByteSource& s, CaseInfo& ci) {
   ci.sample = samp;
 }
 void enumerate(const Emit&, const std::string&) {}
+
+// fixed finding 9f16cdd: x below the first node was extrapolated instead of rejected
+void regressions() {
+  Sol S(3, 2, 1, 0.0);
+  S.Set_xrange(0.0, 0.1, "linear");
+  S.hA.assign(1, std::vector<double>(4, 0.0)); S.hB.assign(1, std::vector<double>(4, 0.0)); S.hi.assign(4, 0.0);
+  SU_vector O(2); O[1] = 1;
+  std::vector<bool> avr(1);
+  squids::SQuIDS::expectationValueDBuffer ub(2);
+  for (double x : {-4.9406564584124654e-324, -1.0, -(double)INFINITY}) {
+    int raised = 0;
+    try { SU_vector r = S.GetIntermediateState(0, x); (void)r; } catch (const std::exception&) { raised++; }
+    try { S.GetExpectationValueD(O, 0, x); } catch (const std::exception&) { raised++; }
+    try { S.GetExpectationValueD(O, 0, x, ub); } catch (const std::exception&) { raised++; }
+    try { S.GetExpectationValueD(O, 0, x, 1e300, avr); } catch (const std::exception&) { raised++; }
+    try { S.GetExpectationValueD(O, 0, x, ub, 1e300, avr); } catch (const std::exception&) { raised++; }
+    CHECK(raised == 5, "C05|GetIntermediateState|outside-range-answered|below", "regression: x=%g answered by %d of 5 entry points", x, 5 - raised);
+  }
+}
